@@ -392,5 +392,5 @@ class LinenoSpec(Spec):
 
 def specs(tier):
     if tier == 'thorough':
-        return [LinenoSpec('layouts-cost<=5', 5)]
+        return [LinenoSpec('layouts-cost<=4', 4)]
     return [LinenoSpec('layouts-cost<=3', 3)]
